@@ -26,6 +26,11 @@ CHECKS = {
    "DESIGN.md section 4 / C13",
    "Counter magnitudes are reached through the seeding hook; netcode sequence magnitudes through the crate's encoder.",
    "runtime monitoring: size / serialization assertion on every produced datagram under boundary-seeded state"),
+ "C09": ("exploration",
+   "Long lossy sessions with small budgets kept within the budget window; after every arrival/drain/tick the accounted memory of every channel (send: public API, receive: hook) is range-checked, unreliable flush and 3 s fragment expiry are checked per message, memory disconnects are violations, the drained quiescent point must show every budget fully returned; plus a heap-trend test with a counting allocator over identical cycles. Both the overflow-checked and the shipped build.",
+   "DESIGN.md section 4 / C09",
+   "'Within budget' is the window defined in DESIGN C09; the fragment-expiry bound is an upper bound computed from delivered slices; heap trend uses a 32 KB slack.",
+   "runtime monitoring: accounting invariants at hooks + quiescent-point conservation + allocator trend"),
 }
 
 NOT_YET = {}
